@@ -3216,6 +3216,10 @@ func (s *BgpServer) policyAcceptedAdjRibInPaths(peer *peer, family bgp.Family, f
 		options := &table.PolicyOptions{
 			Validate: s.roaTable.Validate,
 		}
+		// the same context as the import itself (propagateUpdate)
+		if !peer.isRouteServerClient() {
+			options.Info = peer.peerInfo.Load()
+		}
 		p := s.policy.ApplyPolicy(peer.TableID(), table.POLICY_DIRECTION_IMPORT, path, options)
 		if p == nil {
 			filtered[pathLocalKey] = table.PolicyFiltered
